@@ -203,7 +203,7 @@ func cmdCheck(args []string) int {
 		cfg := &interp.Config{
 			Prog: l.prog, HarnessPkgs: harnessPkgs(l), InitPkgs: l.initPkgs, Workers: *workers,
 			SolverArgv: solverArgv("z3"), TimeoutMs: tmo, MaxPaths: ts.MaxPaths,
-			Budget: time.Duration(ts.BudgetS) * time.Second, Params: params, SampleEvery: 97, MaxSteps: hs.MaxSteps, RunCmdInits: hs.CmdInits,
+			Budget: time.Duration(ts.BudgetS) * time.Second, Params: params, SampleEvery: 97, MaxSteps: hs.MaxSteps, RunCmdInits: hs.CmdInits, KeepObs: hs.Kind == "deterministic",
 		}
 		res, err := interp.Explore(cfg, fn)
 		if err != nil {
@@ -305,6 +305,16 @@ func cmdCheck(args []string) int {
 		// distribution harnesses: exact outcome probabilities per class
 		if hs.Kind == "distribution" {
 			v, inc, probs := analyseDistribution(*prop, &hs, res, params, nb)
+			violations += v
+			inconclusive += inc
+			problems = append(problems, probs...)
+			rep.Reproduced += v
+		}
+
+		// determinism harnesses: within a class all paths (all resolutions of the
+		// nondeterminism a seed does not fix) must observe the same outcome
+		if hs.Kind == "deterministic" {
+			v, inc, probs := analyseDeterminism(*prop, &hs, res, params, nb)
 			violations += v
 			inconclusive += inc
 			problems = append(problems, probs...)
@@ -656,4 +666,75 @@ func confirmDistribution(nb *nativeBuilder, path string, rf *ReplayFile) (bool, 
 		return true, fmt.Sprintf("%d native runs agree with the exact distribution and reject uniformity", total)
 	}
 	return false, fmt.Sprintf("native frequencies: agree=%v nonuniform=%v over %d runs", agree, nonUniform, total)
+}
+
+
+// analyseDeterminism: 2-safety by path comparison. Paths of one class differ only
+// in the resolution of map iteration orders / schedules / clock; their outcome
+// observations must be identical. A violation is confirmed natively by repeating
+// the call until two different outputs are seen.
+func analyseDeterminism(prop string, hs *HarnessSpec, res *interp.ExploreResult, params map[string]int, nb *nativeBuilder) (violations, inconclusive int, problems []string) {
+	type cls struct {
+		out    map[string]int
+		sample *interp.PathResult
+	}
+	classes := map[string]*cls{}
+	for _, p := range res.Weighted {
+		c, ok1 := obsValue(p.Observe, "class")
+		o, ok2 := obsValue(p.Observe, "outcome")
+		if !ok1 || !ok2 {
+			continue
+		}
+		k := classes[c]
+		if k == nil {
+			k = &cls{out: map[string]int{}, sample: p}
+			classes[c] = k
+		}
+		k.out[o]++
+	}
+	if len(classes) == 0 {
+		problems = append(problems, hs.Name+": no path with class/outcome observations")
+		inconclusive++
+	}
+	var names []string
+	for c := range classes {
+		names = append(names, c)
+	}
+	sort.Strings(names)
+	nviol := 0
+	for _, c := range names {
+		k := classes[c]
+		if len(k.out) <= 1 || nviol >= 3 {
+			continue
+		}
+		nviol++
+		dist := map[string]string{}
+		for o, n := range k.out {
+			dist[o] = strconv.Itoa(n)
+		}
+		what := fmt.Sprintf("%d different outputs for the same input, options and seed", len(k.out))
+		rf := &ReplayFile{Property: prop, Harness: hs.Func, InCmd: hs.InCmd, Inputs: k.sample.Inputs, Params: params,
+			Expect: "nondeterminism", Label: what, Msg: "class " + c + ": " + what, Dist: dist, Class: c}
+		pth, err := writeReplay("/verif/replays", rf)
+		if err != nil {
+			problems = append(problems, err.Error())
+			inconclusive++
+			continue
+		}
+		nres, err := nb.runRepeat([]string{pth}, rf.InCmd, false, 120*time.Second, -500)
+		seen := 0
+		if err == nil && nres[pth] != nil {
+			seen = len(nres[pth].Dist)
+		}
+		if seen > 1 {
+			violations++
+			fmt.Printf("VIOLATION property=%s replay=%s\n", prop, pth)
+			fmt.Printf("  harness=%s kind=nondeterminism: class %s: %s (natively: %d different outputs in 500 repetitions)\n", hs.Name, c, what, seen)
+		} else {
+			fmt.Printf("UNCONFIRMED property=%s replay=%s engine=nondeterminism native=%d distinct outputs in 500 repetitions\n", prop, pth, seen)
+			problems = append(problems, fmt.Sprintf("%s: nondeterminism in class %s not observed natively", hs.Name, c))
+			inconclusive++
+		}
+	}
+	return
 }
